@@ -596,12 +596,22 @@ func replayScenario(name string, beh []map[string]any, wtCand bool) Scenario {
 		}
 		// the drain-listener window is stepped only by behaviours of configurations that have it
 		for _, a := range beh {
-			if a["a"] == "flush.done" {
+			if d, _ := a["dwin"].(bool); a["a"] == "flush.done" || d {
 				g.Park("L.drain", true)
 			}
 		}
 		sid := s.Sid
 		var cand *WSClient
+		// the heartbeat instants of the session (revision 4): the model's "ping" / "pingtimeout" steps are the timers firing
+		pingDue := time.Now().Add(cfg.PI)
+		var pingAt time.Time
+		sleepUntil := func(at time.Time) {
+			if d := time.Until(at); d > 0 {
+				g.SleepArmed(d)
+			} else {
+				synctest.Wait()
+			}
+		}
 		for _, a := range beh {
 			switch a["a"] {
 			case "send":
@@ -613,11 +623,11 @@ func replayScenario(name string, beh []map[string]any, wtCand bool) Scenario {
 			case "appclose":
 				d, _ := a["discard"].(bool)
 				go w.Close(sid, d)
-			case "poll", "poll.overlap":
-				if a["a"] == "poll.overlap" {
-					w.Cause(sid, "error")
-				}
+			case "poll":
 				c.poll = w.StartReq("poll", s, ReqOpt{})
+			case "poll.overlap":
+				w.Cause(sid, "error")
+				w.StartReq("poll", s, ReqOpt{}) // refused with 400: never the session's pending poll
 			case "poll.abort":
 				if c.poll != nil {
 					w.Cause(sid, "error")
@@ -666,7 +676,7 @@ func replayScenario(name string, beh []map[string]any, wtCand bool) Scenario {
 					cand.SendPkt(Pkt{Type: "ping", Data: []byte("probe")})
 				}
 			case "check":
-				g.Sleep(100 * time.Millisecond)
+				g.SleepArmed(100 * time.Millisecond)
 			case "cand.upgrade", "cand.upgrade.late":
 				if cand != nil && !cand.closed {
 					cand.SendPkt(Pkt{Type: "upgrade"})
@@ -679,19 +689,30 @@ func replayScenario(name string, beh []map[string]any, wtCand bool) Scenario {
 				if cand != nil {
 					cand.Drop()
 					cand = nil
+					// a writer goroutine of the dropped candidate still parked would be taken for the next candidate's
+					sc.settle()
+					for g.Release(streamGate) {
+						sc.settle()
+					}
 				}
 			case "ping":
-				g.Sleep(cfg.PI)
+				sleepUntil(pingDue)
+				pingAt = time.Now()
 			case "pong":
 				if c.Kind == "polling" {
 					w.Post(s, []Pkt{{Type: "pong"}}, ReqOpt{})
 				} else if c.ws != nil {
 					c.ws.SendPkt(Pkt{Type: "pong"})
 				}
+				sc.wait()
+				pingDue = time.Now().Add(cfg.PI)
 			case "pingtimeout":
-				g.Sleep(cfg.PT)
+				sleepUntil(pingAt.Add(cfg.PT))
 			}
 			sc.settle()
+			if exp, ok := a["exp"].(map[string]any); ok {
+				w.logModelExpect(sid, c.poll, a["a"], exp)
+			}
 		}
 		g.StopParking()
 		g.ReleaseAll()
